@@ -20,7 +20,7 @@ import (
 	"verif/harness/sm"
 )
 
-const ruleC16 = "a criteria tree (all leaf operators, numeric literals in every Go kind that represents them exactly, Field(n) and \"$n\" operands including references to absent fields, And/Or/Not to depth 4) and 3-6 documents (absent fields, nil, mixed types). On Criteria.Satisfy with raw Go literals and with pre-normalised literals, and on FindAll over the collection (optionally with an index): truth value = reference evaluator; not(not c) = c; De Morgan on every And/Or node; Neq = not Eq; literal-kind invariance; replacing a field-reference operand by the document's own value does not change the result for that document. An evaluation is one (criteria, collection) case; non-trivial when the criteria are true on some and false on other documents of the case; distinct = distinct cases."
+const ruleC16 = "a criteria tree (all leaf operators, numeric literals in every Go kind that represents them exactly, Field(n) and \"$n\" operands including references to absent fields, And/Or/Not to depth 4; Contains leaves often take their operands from the elements of one array stored under the very field, repeated and in several Go kinds, up to two more operands than the array has elements) and 3-6 documents (absent fields, nil, mixed types). On Criteria.Satisfy with raw Go literals and with pre-normalised literals, and on FindAll over the collection (optionally with an index): truth value = reference evaluator; not(not c) = c; De Morgan on every And/Or node; Neq = not Eq; literal-kind invariance; replacing a field-reference operand by the document's own value does not change the result for that document. An evaluation is one (criteria, collection) case; non-trivial when the criteria are true on some and false on other documents of the case; distinct = distinct cases."
 
 type c16Case struct {
 	Docs  []cs.Doc `json:"docs"`
@@ -266,7 +266,7 @@ func propC16(col *ev.Collector) func(rt *rapid.T) {
 				}
 			}
 		}
-		env := gen.CritEnv{Val: vcfg, Values: values, ValuesOf: valuesOf, GoKinds: true, MaxDepth: 4}
+		env := gen.CritEnv{Val: vcfg, Values: values, ValuesOf: valuesOf, GoKinds: true, MaxDepth: 4, ContainsOwn: true}
 		crit := env.Crit(rt, rapid.IntRange(1, 4).Draw(rt, "depth"))
 		cse := &c16Case{Docs: docs, Crit: crit}
 		if !wide && rapid.Bool().Draw(rt, "indexed") {
